@@ -281,7 +281,19 @@ func RunCase(k *fw.Case, cfg *Config) {
 	}
 	rs := Gen(r, g)
 	obs := NewObs()
-	eng, err := NewEngineTarget(obs, rs.Text)
+	// a third of the rule sets are installed by a full build followed by incremental builds
+	var groups []string
+	if len(rs.Rules) >= 2 && r.Intn(3) == 0 {
+		groups = rs.Groups(r, 2+r.Intn(2))
+		k.Count("rule_sets_installed_incrementally", 1)
+	}
+	var eng *Target
+	var err error
+	if groups != nil {
+		eng, err = NewEngineTargetSplit(obs, groups)
+	} else {
+		eng, err = NewEngineTarget(obs, rs.Text)
+	}
 	if err != nil {
 		k.Inconclusive("generated rule set does not compile (compiling is C10's subject): " + trunc(err.Error(), 300))
 		return
@@ -289,7 +301,11 @@ func RunCase(k *fw.Case, cfg *Config) {
 	var pool *Target
 	em := 1 + r.Intn(4)
 	if r.Float64() < cfg.PoolProb {
-		pool, err = NewPoolTarget(obs, rs.Text, 1, 2, em)
+		if groups != nil {
+			pool, err = NewPoolTargetSplit(obs, groups, 1, 2, em)
+		} else {
+			pool, err = NewPoolTarget(obs, rs.Text, 1, 2, em)
+		}
 		if err != nil {
 			k.Inconclusive("generated rule set does not compile in a pool (C10's subject): " + trunc(err.Error(), 300))
 			return
